@@ -14,8 +14,11 @@ CONSTANTS DeclIds, MaxWidth, Emit
 VARIABLE st
 
 CDecls == ndJsonDeserialize("catalog_decls.ndjson")
+\* the words that select command c: the names on the way, each preceded by one word per positional argument of its parent
+\* (positionals are filled before a command name is looked for; behind a slice positional no command is reachable)
+Fillers(cd) == IF \E i \in 1..Len(cd.args) : cd.args[i].slice THEN <<>> ELSE [i \in 1..Len(cd.args) |-> <<49>>]
 RECURSIVE PathOf(_, _)
-PathOf(d, c) == IF c = 1 THEN <<>> ELSE Append(PathOf(d, d.cmds[c].parent), d.cmds[c].name)
+PathOf(d, c) == IF c = 1 THEN <<>> ELSE PathOf(d, d.cmds[c].parent) \o Fillers(d.cmds[d.cmds[c].parent]) \o <<d.cmds[c].name>>
 MScn(di, argv, po) == [decl |-> di, popts |-> po, handler |-> "none", cmdHandler |-> FALSE, execErr |-> FALSE, env |-> <<>>, argv |-> argv,
                        completion |-> E, hasPrelude |-> FALSE, prelude |-> <<>>]
 
